@@ -27,8 +27,12 @@ def exen_pairs(ctx, prog, res):
     """Framer.ExEn on the built frame objects for all (outline of frame a, target b) pairs"""
     from ioflo.base import framing
     house = res.skedder.houses[0]
+    from ioflo.base.globaling import MOOT
+    alias = getattr(res, "alias", None) or {}
     for fr in house.framers:
-        S = P.Static([f for f in prog["houses"][0]["framers"] if f["name"] == fr.name][0])
+        if alias and fr.schedule == MOOT:
+            continue          # the moot's own links stay unresolved; its clone is checked under the moot's name
+        S = P.Static([f for f in prog["houses"][0]["framers"] if f["name"] == alias.get(fr.name, fr.name)][0])
         objs = dict(fr.frameNames)
         for a in S.order:
             nears = [objs[n] for n in S.outline(a)]
@@ -57,11 +61,21 @@ def worker(ctx, job):
         for k in list(ctx.fail_counts):
             if k.startswith("marker-condition/"):
                 ctx.fail_counts["transit-before-exit/" + k] = ctx.fail_counts.get("transit-before-exit/" + k, 0) + ctx.fail_counts.pop(k)
+    variants = []
     for seed, fi in job["items"]:
         rng = random.Random(seed)
         prog = gen.gen_program(rng, gen.pickfeat(FEATS, fi))
-        text = P.render(prog)
-        res = runner.run_text(text, maxticks=prog["ticks"] + 12, post=True)
+        variants.append((prog, None))
+        # the same program with auxiliary framers turned into clones of moot framers (frames and action lists copied by
+        # Frame.clone): monitored under the names of the framers they stand for
+        p2, alias = gen.cloneify(prog, random.Random(seed ^ 0x5EED))
+        if alias:
+            variants.append((prog, (p2, alias)))
+    for prog, cloned in variants:
+        text = P.render(cloned[0] if cloned else prog)
+        res = runner.run_text(text, maxticks=prog["ticks"] + 12, post=True, alias=cloned[1] if cloned else None)
+        if cloned:
+            ctx.hit("cloned_aux_variants")
         if not res.built:
             ctx.inconclusive_case("generated program did not build: %s" % (res.build_msgs[-1:],))
             continue
